@@ -317,7 +317,9 @@ class RainbowDQN(RLAlgorithm):
             t_z = t_z.clamp(min=self.v_min, max=self.v_max)
 
             # Finds closest support element index value
-            b = (t_z - self.v_min) / self.delta_z
+            # NOTE: float32 rounding can put b slightly outside of [0, num_atoms - 1]
+            # (e.g. v_max=0.3 with 11 atoms), which would index past the last atom
+            b = ((t_z - self.v_min) / self.delta_z).clamp(0, self.num_atoms - 1)
 
             # Find the neighbouring indices of b
             L = b.floor().long()
